@@ -197,6 +197,18 @@ func VerifDir() string {
 	return "/verif"
 }
 
+// BinDir is where the check script put the binaries it built.
+func BinDir() string {
+	b := os.Getenv("VERIF_BIN")
+	if b == "" {
+		b = "bin"
+	}
+	if filepath.IsAbs(b) {
+		return b
+	}
+	return filepath.Join(VerifDir(), b)
+}
+
 // ReplayFile is the on-disk form of a failing (or sample) scenario.
 type ReplayFile struct {
 	Property  string          `json:"property"`
